@@ -314,10 +314,15 @@ func producerFault(kind string, data []byte, a, b, variant, n int) []byte {
 	case "P-vocab":
 		// an element of the WordprocessingML / DrawingML / math vocabulary where the library did not put one, in one of the spellings
 		// a producer may use: empty-element tag, start and end tag with nothing between, or with a run inside
-		if m := pickMatch(reAnyTag, a); m != nil {
-			name := c06vocab[b%len(c06vocab)]
+		// (up to four elements per fault, at different places)
+		for k := 0; k < 1+n%4; k++ {
+			m := pickMatch(reAnyTag, a+k*37)
+			if m == nil {
+				break
+			}
+			name := c06vocab[(b+k*11)%len(c06vocab)]
 			ins := "<" + name + "/>"
-			switch variant % 4 {
+			switch (variant + k) % 4 {
 			case 1:
 				ins = "<" + name + "></" + name + ">"
 			case 2:
@@ -325,8 +330,9 @@ func producerFault(kind string, data []byte, a, b, variant, n int) []byte {
 			case 3:
 				ins = "<" + name + " w:val=\"1\" w:id=\"7\" r:id=\"rId1\"/>"
 			}
-			return []byte(s[:m[0]] + ins + s[m[0]:])
+			s = s[:m[0]] + ins + s[m[0]:]
 		}
+		return []byte(s)
 	case "P-selfclose":
 		// the empty-element spelling: <x a="b"></x> becomes <x a="b"/> everywhere (variant 0) or at one place - what every producer
 		// but Go's encoder writes
